@@ -140,7 +140,14 @@ def check(case, ctx):
         return
     for ai, A in enumerate(case["assumps"]):
         want, sp = brute_count(net, A)
-        ok, got = ctx.call(cg.sat.model_count, c, dict(A))
+        Aarg = dict(A)
+        ok, got = ctx.call(cg.sat.model_count, c, Aarg)
+        if Aarg != A:
+            ctx.violation("model_count_mutates_assumptions", f"model_count changed the caller's assumptions dict to {Aarg}")
+        if ai == 0 and sp_n <= 6:
+            from rv.props._util import repeat_call
+
+            repeat_call(ctx, "model_count", f"model_count({A})", cg.sat.model_count, (c, Aarg), {}, (ok, got))
         ctx.count("cmp:model_count")
         ctx.count("count_zero" if want == 0 else "count_pos")
         if A and any(net.types[n] not in ("input", "bb_output") for n in A):
